@@ -163,6 +163,9 @@ func parked() (map[string]string, int) {
 		switch {
 		case strings.Contains(head, "[sync.Mutex.Lock") || strings.Contains(head, "[semacquire"):
 			blocked[id] = g
+		case strings.Contains(head, "[chan send") && (strings.Contains(g, "imapserver.(*SessionTracker)") || strings.Contains(g, "imapserver.(*MailboxTracker)")):
+			// a tracker blocked handing an update to a session that will never take it
+			blocked[id] = g
 		case strings.Contains(head, "[running") || strings.Contains(head, "[runnable") || strings.Contains(head, "[sleep"):
 			if !strings.Contains(g, "main.(*runState)") {
 				active++
@@ -395,6 +398,32 @@ func (rs *runState) session(s *sess, wg *sync.WaitGroup) {
 	s.raw.Close()
 }
 
+// idleStaller: a session that enters IDLE on mailbox A and then stops reading (its server-side
+// writes block, as with a full TCP window) while the others keep changing that mailbox; at the
+// end it disappears without DONE.
+func (rs *runState) idleStaller(s *sess, othersDone <-chan struct{}, wg *sync.WaitGroup) {
+	defer wg.Done()
+	if !rs.connect(s) {
+		return
+	}
+	if _, ok := rs.cmd(s, "SELECT A"); !ok {
+		return
+	}
+	s.tagN++
+	tag := fmt.Sprintf("s%dt%d", s.id, s.tagN)
+	s.raw.SendStr(tag + " IDLE\r\n")
+	if !s.raw.WaitFor(func(b []byte) bool { return strings.Contains(string(b), "+ ") || strings.Contains(string(b), tag+" ") }, 40*time.Second) {
+		rs.violation("command-stalls@IDLE", fmt.Sprintf("session %d: no continuation request for IDLE", s.id), map[string]interface{}{"config": rs.cfg.String()})
+		return
+	}
+	s.raw.S.StallWrites(true)
+	<-othersDone
+	s.raw.Close()
+	rs.mu.Lock()
+	rs.done++
+	rs.mu.Unlock()
+}
+
 func runOnce(w *hx.W, cfg runCfg, seed int64) {
 	end := w.Begin("run", cfg.String(), 300*time.Second)
 	defer end()
@@ -413,12 +442,21 @@ func runOnce(w *hx.W, cfg runCfg, seed int64) {
 	}
 	var wg sync.WaitGroup
 	rng := rand.New(rand.NewSource(seed))
+	var stallWG sync.WaitGroup
+	othersDone := make(chan struct{})
 	for i := 0; i < cfg.sessions; i++ {
 		s := &sess{id: i, rng: rand.New(rand.NewSource(rng.Int63()))}
+		if cfg.profile == "stalled-idler" && i == 0 {
+			stallWG.Add(1)
+			go rs.idleStaller(s, othersDone, &stallWG)
+			continue
+		}
 		wg.Add(1)
 		go rs.session(s, &wg)
 	}
 	wg.Wait()
+	close(othersDone)
+	stallWG.Wait()
 	if !rs.fail {
 		closed := make(chan struct{})
 		go func() { mem.Close(); close(closed) }()
@@ -433,6 +471,9 @@ func runOnce(w *hx.W, cfg runCfg, seed int64) {
 	}
 	for _, c := range lockmon.Cycles() {
 		w.Violation("lock-order-cycle@"+c.Key, "potential deadlock: locks acquired in opposite orders by different goroutines without a common gate: "+c.Desc, map[string]interface{}{"config": cfg.String(), "sites": c.Sites})
+	}
+	for k, d := range lockmon.RecursiveReadLocks() {
+		w.Violation("recursive-read-lock@"+k, "potential deadlock: "+d, map[string]interface{}{"config": cfg.String()})
 	}
 	st := lockmon.Snapshot()
 	fingerprints[st.Fingerprint] = true
@@ -451,7 +492,14 @@ func body(w *hx.W) {
 	n := w.Pick(700, 20000)
 	for i := 0; i < n && hangs < 3; i++ {
 		cfg := runCfg{sessions: 2 + rng.Intn(7), ops: 20 + rng.Intn(25), procs: []int{1, 2, 4, 16}[rng.Intn(4)], yield: []int{0, 50, 200, 500}[rng.Intn(4)], boxes: 2 + rng.Intn(2),
-			profile: []string{"mixed", "mixed", "copy-storm", "namespace"}[rng.Intn(4)]}
+			profile: []string{"mixed", "mixed", "copy-storm", "namespace", "mixed", "stalled-idler"}[rng.Intn(6)]}
+		if cfg.profile == "stalled-idler" {
+			// everybody works on the mailbox the stalled session idles on
+			cfg.boxes, cfg.ops = 1, 40+rng.Intn(20)
+			if cfg.sessions < 3 {
+				cfg.sessions = 3
+			}
+		}
 		seed := rng.Int63()
 		if !w.Mine(i) {
 			continue
@@ -470,11 +518,11 @@ func main() {
 	hx.Main(hx.Spec{
 		ID:    "C14",
 		Level: "exploration",
-		Rule:  "runs = 2..8 concurrently running sessions x 20..44 random commands each (SELECT/EXAMINE, COPY/MOVE/UID COPY/UID MOVE towards another shared mailbox, FETCH with literals, STORE, EXPUNGE/UID EXPUNGE, APPEND, SEARCH, LIST/LSUB incl. STATUS return, STATUS, CREATE/DELETE/RENAME/SUBSCRIBE of scratch and (profile namespace) shared mailboxes, NOOP, IDLE with DONE or abrupt disconnect, CLOSE/UNSELECT) over 2..3 shared mailboxes of one user x profiles {mixed, copy-storm (70% copies and moves in both directions), namespace} x GOMAXPROCS in {1,2,4,16} x yield probability {0,5,20,50}% at every lock boundary of packages imapserver and imapmemserver; distinct = distinct (configuration, seed)",
+		Rule:  "runs = 2..8 concurrently running sessions x 20..44 random commands each (SELECT/EXAMINE, COPY/MOVE/UID COPY/UID MOVE towards another shared mailbox, FETCH with literals, STORE, EXPUNGE/UID EXPUNGE, APPEND, SEARCH, LIST/LSUB incl. STATUS return, STATUS, CREATE/DELETE/RENAME/SUBSCRIBE of scratch and (profile namespace) shared mailboxes, NOOP, IDLE with DONE or abrupt disconnect, CLOSE/UNSELECT) over 2..3 shared mailboxes of one user x profiles {mixed, copy-storm (70% copies and moves in both directions), namespace, stalled-idler (one session idles and stops reading while the others change its mailbox hundreds of times)} x GOMAXPROCS in {1,2,4,16} x yield probability {0,5,20,50}% at every lock boundary of packages imapserver and imapmemserver; distinct = distinct (configuration, seed)",
 		Assumptions: []string{
 			"every connection is drained continuously by the harness, so a server goroutine blocked on a network write is never the cause of a stall",
 			"a stall is decided by a 40 s watchdog per command plus a goroutine dump: only server goroutines parked on a mutex make it a deadlock verdict",
-			"lock-order cycles are reported from the instance-level lock graph when the two orders were taken by different goroutines without a common gate lock, also when the run did not hang",
+			"lock-order cycles are reported from the instance-level lock graph when the two orders were taken by different goroutines without a common gate lock, also when the run did not hang; read locks of a sync.RWMutex take part in the graph, and a read lock taken by a goroutine that already holds it is reported (sync.RWMutex forbids recursive read locking: it deadlocks once a writer queues up in between)",
 			"the race detector and the lock graph only see the interleavings the yield seeds and the scheduler produce; evidence reports distinct lock-acquisition fingerprints",
 		},
 		RaceFrames: []string{"imapserver.", "imapmemserver."},
